@@ -546,6 +546,13 @@ encodeResponse:
         *alertDescription = (unsigned char)ssl->err;
         *alertLevel = SSL_ALERT_LEVEL_FATAL;
         rc = tls13EncodeAlert(ssl, ssl->err, &tmp, requiredLen);
+        if (rc >= 0)
+        {
+            /* This is always a fatal alert due to an error in message
+               parsing, so flag the session as unusable, as the decoder
+               for TLS 1.2 and below does. */
+            ssl->flags |= SSL_FLAGS_ERROR;
+        }
     }
     else
     {
